@@ -257,6 +257,9 @@ class Interp:
     # ------------------------------------------------------------ sequences
     def seq_len(self, seq):
         if isinstance(seq, SeqSym):
+            alias = getattr(self, 'len_alias', {}).get(seq.name)
+            if alias is not None:
+                return alias
             return ('len', seq.term())
         if isinstance(seq, SeqLit):
             return iconst(len(seq.elems))
@@ -288,7 +291,42 @@ class Interp:
             return mk_sel(seq.cond, self.seq_len(seq.a), self.seq_len(seq.b))
         raise Unsupported('length of %s' % type(seq).__name__)
 
+    def scan_name(self, seq):
+        if not hasattr(self, 'scan_defs'):
+            self.scan_defs = {}
+            self._scan_ids = {}
+        k = id(seq)
+        if k not in self._scan_ids:
+            nm = 'scan#%d' % (len(self._scan_ids) + 1)
+            self._scan_ids[k] = nm
+            self.scan_defs[nm] = seq
+        return self._scan_ids[k]
+
+    def unfold_scan_state(self, t, positive=()):
+        """scanst(s, k, 0) = init_k ;  scanst(s, k, j) = next_k(state at j−1, j−1) for j provably ≥ 1 (j = ι + c, c ≥ 1)"""
+        defs = getattr(self, 'scan_defs', {})
+        m = {}
+        for x in subterms(t):
+            if x[0] == 'scanst' and x[1] in defs:
+                seq = defs[x[1]]
+                j = x[3]
+                if j == iconst(0):
+                    m[x] = seq.init[x[2]]
+                    continue
+                jm1 = self.isub(j, iconst(1))
+                # j ≥ 1 when j − 1 is a canonical sum without a negative constant part
+                ok = not (jm1[0] == 'i-' or (jm1[0] == 'ic' and jm1[1] < 0)) or j in positive
+                if ok and jm1 != j:
+                    sub = {seq.ivar: jm1}
+                    for k_, (_loc, fv) in enumerate(seq.state_syms):
+                        sub[fv] = ('scanst', x[1], k_, jm1)
+                    m[x] = subst_term(seq.next_state[x[2]], sub)
+        return subst_term(t, m) if m else t
+
     def seq_get(self, seq, idx, state):
+        if isinstance(idx, tuple) and idx and idx[0] == 'sel' and isinstance(seq, (SeqLit, Arr)):
+            # a two-way choice of position (`table[flag as usize]`): the choice of the two elements
+            return self.select(idx[1], self.seq_get(seq, idx[2], state), self.seq_get(seq, idx[3], state))
         if isinstance(seq, SeqSym):
             return self.elem_value(seq.term(), idx, seq.elem_ty, state)
         if isinstance(seq, (SeqLit, Arr)):
@@ -308,6 +346,14 @@ class Interp:
             return self.select(('icmp', 'eq', idx, seq.idx), seq.val, self.seq_get(seq.seq, idx, state))
         if isinstance(seq, SeqMap):
             return self.subst_value(seq.elem, {seq.ivar: idx})
+        if isinstance(seq, SeqScan) and seq.err is None:
+            # element idx of a recurrence: its output at idx, with the state at idx as (named) unknowns that
+            # `unfold_scan_state` can unfold one step
+            name = self.scan_name(seq)
+            m = {seq.ivar: idx}
+            for k_, (_loc, fv) in enumerate(seq.state_syms):
+                m[fv] = ('scanst', name, k_, idx)
+            return self.subst_value(seq.out, m)
         if isinstance(seq, SelV):
             return self.select(seq.cond, self.seq_get(seq.a, idx, state), self.seq_get(seq.b, idx, state))
         if isinstance(seq, SeqFilter):
@@ -971,6 +1017,13 @@ class Interp:
                 return v
             if kind == 'int_to_float':
                 return ('i2f', v)
+            if kind == 'int_to_int' and rv.get('from_ty', {}).get('k') == 'bool' and isinstance(v, tuple):
+                # `flag as usize`: 1 when the flag holds, else 0
+                if v == TRUE:
+                    return iconst(1)
+                if v == FALSE:
+                    return iconst(0)
+                return mk_sel(v, iconst(1), iconst(0))
             if kind in ('int_to_int', 'ptr_to_ptr', 'transmute', 'float_to_float'):
                 return v
             raise Unsupported('cast %s' % kind)
@@ -1016,6 +1069,13 @@ class Interp:
 
     def binop(self, op, a, b, opty):
         k = opty['k']
+        if k in ('uint', 'int') and op in ('bitand', 'bitor', 'bitxor') and (isinstance(a, (Ref, SliceRef)) or isinstance(b, (Ref, SliceRef))):
+            # bits of an address (compiler-inserted alignment checks): unknown
+            return self.fresh_sym('addr-bits')
+        if k in ('uint', 'int') and op in ('eq', 'ne') and (isinstance(a, (Ref, SliceRef)) or isinstance(b, (Ref, SliceRef))) and \
+                (a == iconst(0) or b == iconst(0)):
+            # an address compared with null (compiler-inserted check): references are never null
+            return FALSE if op == 'eq' else TRUE
         if not isinstance(a, tuple) or not isinstance(b, tuple):
             raise Unsupported('arithmetic on a value the analysis has no term for (%s, %s)' % (type(a).__name__, type(b).__name__))
         if k == 'float':
@@ -1025,6 +1085,8 @@ class Interp:
             if op in ('lt', 'le', 'gt', 'ge', 'eq', 'ne'):
                 return mk_fcmp(op, a, b)
             raise Unsupported('float binop %s' % op)
+        if k in ('uint', 'int') and op in ('bitand', 'bitor', 'bitxor') and False:
+            pass
         if k in ('uint', 'int'):
             if op in ('add', 'add_unchecked'):
                 return self.iadd(a, b)
@@ -1291,6 +1353,9 @@ class Interp:
                         detail[key] = self.eval_operand(frame, state, t[key])
                 if 'op' in t:
                     detail['op'] = t['op']
+                if t['kind'] == 'other' and blk['term_span'].get('exp'):
+                    # compiler-inserted pointer checks (alignment / null) inside std macro expansions such as vec![…]
+                    return [(t['target'], state)]
                 self.record_site(frame, state, 'assert:' + t['kind'], cond, line, detail)
                 if cond == FALSE:
                     return []
@@ -1460,6 +1525,14 @@ class Interp:
             im, b, f = hit
             return self.call_fn(f, ctx.args, ctx, b)
         key = '%s::%s' % (trait, name)
+        if self_ty.get('k') != 'param' and self.facts.has_fn(key) and self.facts.find_impl(trait, self_ty):
+            # a provided (default) method of a trait of this crate, used through an impl that does not override it
+            pf = self.facts.fn(key)
+            if pf.get('body'):
+                sub = {'Self': self_ty}
+                for g_, a_ in zip([g for g in pf.get('generics', []) if g != 'Self'], targs[1:]):
+                    sub[g_] = a_
+                return self.call_fn(pf, ctx.args, ctx, sub)
         m = self.models.get(key)
         if m is not None:
             r = m(ctx)
@@ -1605,7 +1678,13 @@ class Interp:
                     x = x.seq
                     continue
                 break
-            return SeqSym(self.fresh(name), ety)
+            fresh = SeqSym(self.fresh(name), ety)
+            if self._only_updates(before, after):
+                # point updates do not change the length: the loop-head value has the length it had on entry
+                if not hasattr(self, 'len_alias'):
+                    self.len_alias = {}
+                self.len_alias[fresh.name] = self.seq_len(before)
+            return fresh
         if isinstance(v, Opaque):
             return Opaque(self.fresh_sym(name))
         if isinstance(v, Struct):
@@ -1617,6 +1696,17 @@ class Interp:
         if isinstance(v, (Ref, SliceRef, Enum, SelV, Closure, EmptySlice, VecV, Stream)):
             return ('HAVOC-UNSUPPORTED', v)
         return ('HAVOC-UNSUPPORTED', v)
+
+    def _only_updates(self, before, after):
+        x = after
+        for _ in range(64):
+            if x is before or x == before:
+                return True
+            if isinstance(x, SeqUpd):
+                x = x.seq
+                continue
+            return False
+        return False
 
     def havoc_stream(self, before, after, name):
         if before.kind != after.kind or len(before.parts) != len(after.parts):
@@ -1760,6 +1850,11 @@ class Interp:
                     continue
                 nm = self._leaf_name(frame, root, p)
                 fv = self.havoc_like(x, y, nm)
+                if isinstance(fv, SeqSym) and fv.elem_ty is None:
+                    # a vector that starts out empty: take the element type from the declaration
+                    ety = self._leaf_elem_type(frame, root, p)
+                    if ety is not None:
+                        fv = SeqSym(fv.name, ety)
                 if isinstance(fv, tuple) and fv and fv[0] == 'HAVOC-UNSUPPORTED':
                     if root[0] == 'L' and root[1] == frame.id and self._temp_local(frame, root[2]):
                         continue
@@ -1790,6 +1885,9 @@ class Interp:
         if closed is None:
             from . import models as _models
             closed = _models.close_build_loop_generic(self, frame, summ)
+        if closed is None:
+            from . import models as _models
+            closed = _models.close_inplace_loop(self, frame, summ)
         if closed is None:
             from . import models as _models
             closed = _models.close_fold_loop(self, frame, summ)
@@ -1911,6 +2009,31 @@ class Interp:
         summ.recognised = 'BUILD-TRAVERSAL'
         self.events.append({'kind': 'scan' if scal else 'collect', 'fn': frame.f['path'], 'line': summ.line, 'seq': body, 'stream': src, 'from_loop': True})
         return {'exit': et, 'root': qr, 'path': qp, 'value': value}
+
+    def _leaf_elem_type(self, frame, root, path):
+        """element type of the Vec at (root, path) when root is a local of this frame (best effort)"""
+        try:
+            if root[0] != 'L' or root[1] != frame.id:
+                return None
+            ty = subst_ty(frame.body['locals'][root[2]]['ty'], frame.subst)
+            for st in path:
+                if st[0] == 'seq':
+                    if ty.get('k') == 'adt' and ty.get('path', '').endswith('Vec') and ty.get('args'):
+                        return ty['args'][0]
+                    return None
+                if st[0] == 'f' and ty.get('k') == 'adt':
+                    a = self.facts.adts.get(ty['path'])
+                    if a is None:
+                        return None
+                    m = dict(zip(a['generics'], ty['args']))
+                    ty = subst_ty(a['variants'][0]['fields'][st[1]]['ty'], m)
+                elif st[0] == 'f' and ty.get('k') == 'tuple':
+                    ty = ty['tys'][st[1]]
+                else:
+                    return None
+        except Exception:
+            return None
+        return None
 
     def _temp_local(self, frame, local):
         return frame.body['locals'][local]['name'] is None
